@@ -1,2 +1,210 @@
-//! World extension: user flows (instruction builders over the real program).
+//! World extension: user flows (instruction builders over the real program) and a helper to run
+//! harness closures *inside* the hostsvm transaction context (so that `Clock::get()` /
+//! `LastRestartSlot::get()` of directly called state methods see the harness-controlled sysvars).
 use super::*;
+use anchor_lang::solana_program::{account_info::AccountInfo, entrypoint::ProgramResult};
+use gmsol_store::states::user::{ReferralCodeBytes, ReferralCodeV2};
+use gmsol_store::states::UserHeader;
+use std::cell::Cell;
+
+// ------------------------------------------------------------------------------------------------
+// Explicit-account instruction builders (every account can be chosen by the caller, so hostile
+// variants — wrong user account, wrong code, wrong signer — are expressible).
+
+pub fn user_address(store: &Pubkey, owner: &Pubkey) -> Pubkey {
+    pda::find_user_address(store, owner, &STORE_PID).0
+}
+
+pub fn referral_code_address(store: &Pubkey, code: ReferralCodeBytes) -> Pubkey {
+    pda::find_referral_code_address(store, code, &STORE_PID).0
+}
+
+pub fn prepare_user_ix(store: Pubkey, owner: Pubkey) -> Instruction {
+    six(
+        sa::PrepareUser { owner, store, user: user_address(&store, &owner), system_program: system_program::ID },
+        si::PrepareUser {},
+    )
+}
+
+/// `user` is normally `user_address(store, owner)`.
+pub fn initialize_referral_code_ix(store: Pubkey, owner: Pubkey, user: Pubkey, code: ReferralCodeBytes) -> Instruction {
+    six(
+        sa::InitializeReferralCode {
+            owner,
+            store,
+            referral_code: referral_code_address(&store, code),
+            user,
+            system_program: system_program::ID,
+        },
+        si::InitializeReferralCode { code },
+    )
+}
+
+pub fn set_referrer_ix(
+    store: Pubkey,
+    owner: Pubkey,
+    user: Pubkey,
+    code: ReferralCodeBytes,
+    referral_code: Pubkey,
+    referrer_user: Pubkey,
+) -> Instruction {
+    six(sa::SetReferrer { owner, store, user, referral_code, referrer_user }, si::SetReferrer { code })
+}
+
+pub fn transfer_referral_code_ix(store: Pubkey, owner: Pubkey, user: Pubkey, referral_code: Pubkey, receiver_user: Pubkey) -> Instruction {
+    six(sa::TransferReferralCode { owner, store, user, referral_code, receiver_user }, si::TransferReferralCode {})
+}
+
+pub fn cancel_referral_code_transfer_ix(store: Pubkey, owner: Pubkey, user: Pubkey, referral_code: Pubkey) -> Instruction {
+    six(sa::CancelReferralCodeTransfer { owner, store, user, referral_code }, si::CancelReferralCodeTransfer {})
+}
+
+pub fn accept_referral_code_ix(store: Pubkey, next_owner: Pubkey, user: Pubkey, referral_code: Pubkey, receiver_user: Pubkey) -> Instruction {
+    six(sa::AcceptReferralCode { next_owner, store, user, referral_code, receiver_user }, si::AcceptReferralCode {})
+}
+
+/// What the chain says about a user (None: no initialised user account).
+#[derive(Clone, Debug, PartialEq, Eq)]
+pub struct UserView {
+    pub owner: Pubkey,
+    pub store: Pubkey,
+    pub referrer: Option<Pubkey>,
+    pub code: Option<Pubkey>,
+}
+
+/// What the chain says about a referral code account.
+#[derive(Clone, Debug, PartialEq, Eq)]
+pub struct CodeView {
+    pub code: ReferralCodeBytes,
+    pub store: Pubkey,
+    pub owner: Pubkey,
+    pub next_owner: Pubkey,
+}
+
+pub fn read_user(svm: &Svm, store: &Pubkey, owner: &Pubkey) -> Option<UserView> {
+    let h: UserHeader = exchange::load(svm, &user_address(store, owner))?;
+    if !h.is_initialized() {
+        return None;
+    }
+    // `owner` / `store` are crate-private fields: the layout is fixed (tests in the repo pin it), so
+    // they are taken from the account bytes; referrer / code go through the public accessors.
+    let a = svm.get(&user_address(store, owner))?;
+    let d = &a.data[8..];
+    let own = Pubkey::new_from_array(d[16..48].try_into().ok()?);
+    let st = Pubkey::new_from_array(d[48..80].try_into().ok()?);
+    Some(UserView { owner: own, store: st, referrer: h.referral().referrer().copied(), code: h.referral().code().copied() })
+}
+
+pub fn read_code(svm: &Svm, store: &Pubkey, code: ReferralCodeBytes) -> Option<CodeView> {
+    let c: ReferralCodeV2 = exchange::load(svm, &referral_code_address(store, code))?;
+    Some(CodeView { code: c.code, store: c.store, owner: c.owner, next_owner: *c.next_owner() })
+}
+
+impl World {
+    pub fn user_prepare(&mut self, owner: Pubkey) -> TxResult {
+        let ix = prepare_user_ix(self.store, owner);
+        self.send(&[ix], &[owner])
+    }
+
+    pub fn referral_init_code(&mut self, owner: Pubkey, code: ReferralCodeBytes) -> TxResult {
+        let ix = initialize_referral_code_ix(self.store, owner, user_address(&self.store, &owner), code);
+        self.send(&[ix], &[owner])
+    }
+
+    /// Well-formed `set_referrer`: the referrer user account is the one of the code's current owner.
+    pub fn referral_set_referrer(&mut self, owner: Pubkey, code: ReferralCodeBytes) -> TxResult {
+        let store = self.store;
+        let referrer = read_code(&self.svm, &store, code).map(|c| c.owner).unwrap_or_default();
+        let ix = set_referrer_ix(
+            store,
+            owner,
+            user_address(&store, &owner),
+            code,
+            referral_code_address(&store, code),
+            user_address(&store, &referrer),
+        );
+        self.send(&[ix], &[owner])
+    }
+
+    pub fn referral_transfer_code(&mut self, owner: Pubkey, code: ReferralCodeBytes, receiver: Pubkey) -> TxResult {
+        let store = self.store;
+        let ix = transfer_referral_code_ix(
+            store,
+            owner,
+            user_address(&store, &owner),
+            referral_code_address(&store, code),
+            user_address(&store, &receiver),
+        );
+        self.send(&[ix], &[owner])
+    }
+
+    pub fn referral_cancel_transfer(&mut self, owner: Pubkey, code: ReferralCodeBytes) -> TxResult {
+        let store = self.store;
+        let ix = cancel_referral_code_transfer_ix(store, owner, user_address(&store, &owner), referral_code_address(&store, code));
+        self.send(&[ix], &[owner])
+    }
+
+    /// Well-formed `accept_referral_code`: `user` is the account of the code's current owner.
+    pub fn referral_accept_code(&mut self, next_owner: Pubkey, code: ReferralCodeBytes) -> TxResult {
+        let store = self.store;
+        let cur = read_code(&self.svm, &store, code).map(|c| c.owner).unwrap_or_default();
+        let ix = accept_referral_code_ix(
+            store,
+            next_owner,
+            user_address(&store, &cur),
+            referral_code_address(&store, code),
+            user_address(&store, &next_owner),
+        );
+        self.send(&[ix], &[next_owner])
+    }
+}
+
+// ------------------------------------------------------------------------------------------------
+// Running harness code inside the runtime context.
+
+/// Id of the harness-side pseudo program (never a real program; it only runs the pending closure).
+pub fn direct_program_id() -> Pubkey {
+    key("verif:direct-call-program")
+}
+
+thread_local! {
+    static SLOT: Cell<Option<*mut (dyn FnMut() + 'static)>> = const { Cell::new(None) };
+}
+
+fn direct_entry<'a>(_pid: &Pubkey, _accounts: &'a [AccountInfo<'a>], _data: &[u8]) -> ProgramResult {
+    if let Some(p) = SLOT.with(|s| s.take()) {
+        // SAFETY: the pointer was stored by `in_runtime` on this thread for the duration of the
+        // enclosing `process` call and points to a live closure on its stack frame.
+        unsafe { (*p)() };
+    }
+    Ok(())
+}
+
+/// Run `f` as the body of a (no-account) instruction of `svm`: sysvar getters (`Clock::get()`,
+/// `LastRestartSlot::get()`, `Rent::get()`) called by `f` return `svm.clock` / `svm.last_restart_slot`
+/// / `svm.rent`. A panic of `f` is caught by the runtime and returned as `Err(message)`.
+pub fn in_runtime<R>(svm: &mut Svm, f: impl FnOnce() -> R) -> std::result::Result<R, String> {
+    let id = direct_program_id();
+    if svm.get(&id).is_none() {
+        svm.add_program(id, direct_entry);
+    }
+    let mut out: Option<R> = None;
+    let mut f = Some(f);
+    {
+        let mut thunk = || {
+            if let Some(f) = f.take() {
+                out = Some(f());
+            }
+        };
+        let p: *mut (dyn FnMut() + '_) = &mut thunk;
+        // SAFETY: lifetime erasure only; the pointer is consumed (or cleared) before `thunk` dies.
+        let p: *mut (dyn FnMut() + 'static) = unsafe { std::mem::transmute(p) };
+        SLOT.with(|s| s.set(Some(p)));
+        let r = svm.process(&[Instruction { program_id: id, accounts: vec![], data: vec![] }], &[]);
+        SLOT.with(|s| s.set(None));
+        if let Err((e, _)) = r {
+            return Err(format!("{e:?}"));
+        }
+    }
+    out.ok_or_else(|| "closure did not run".to_string())
+}
